@@ -6,7 +6,7 @@ Next/Exit/Error), which yields the expected label trace and outcome without look
 import json
 from framework import Check, Case
 from jqlib import simple_run
-import pyref, opref
+import pyref, opref, forinmut
 from opref import UNSET, RuntimeErr
 
 
@@ -813,8 +813,11 @@ class C07(Check):
             "the input document, break/continue/return/next/exit at arbitrary positions, for-in over arrays/objects (key order)/"
             "strings (multi-byte, empty) with and without the second variable, rendered with random braces/separators; expected "
             "trace from an independent interpreter of the skeleton. thorough adds every ordered pair of loop kinds x control "
-            "statement x position x wrapper x host, and all dangling-else truth combinations; non-trivial = a loop inside a loop "
-            "or a control statement inside a loop")
+            "statement x position x wrapper x host, and all dangling-else truth combinations; for-in loops (arrays, objects, strings; "
+            "held in a variable, a member, the document, a parameter) whose body changes the iterated collection (push / pop / "
+            "popfirst / element stores / auto-fill / reassignment under guards, nested loops over the same array, `for (x in x)`): "
+            "the elements present at loop start are visited once each, in order; non-trivial = a loop inside a loop "
+            "or a control statement inside a loop, or >= 2 visits of a collection changed by the body")
 
     def generate(self, rng, tier):
         cases = []
@@ -863,6 +866,31 @@ class C07(Check):
             nest = count_nest(prog)
             if add(prog, docs, "random", nest[0] >= 2 or nest[1], 2 if rng.random() < 0.3 else 1):
                 made += 1
+        # for-in whose body changes the collection being iterated
+        def add_text(prog, inp, want, what, nontrivial=True):
+            nonlocal n
+            cid = "u%d" % n
+            n += 1
+            meta = {"prog": prog, "input": inp or "", "what": what}
+            if want is not None:
+                meta["want_outcome"], meta["want_stdout"] = want
+            else:
+                meta["note"] = "no documented expectation (slice reuse after pop / growing an iterated object): model agreement only"
+            cases.append(Case(cid, simple_run(cid, prog, [inp] if inp is not None else []), meta, nontrivial))
+
+        for rep in range(40 if thorough else 4):
+            for prog, out in forinmut.self_loops(rng):
+                add_text(prog, None, ("ok", out), "for-in whose loop variable is the iterated variable")
+            for q in forinmut.queues(rng):
+                add_text(q[0], q[2] if len(q) > 2 else None, ("ok", q[1]), "for-in over a work queue that the body changes")
+        made = 0
+        nmut = 6000 if thorough else 450
+        while made < nmut:
+            b = forinmut.build(rng)
+            if b is None or (b["visits"] < 2 and rng.random() < 0.8):
+                continue
+            add_text(b["prog"], b["input"], b["want"], b["what"], b["visits"] >= 2)
+            made += 1
         return cases
 
     def oracle(self, case, impl):
